@@ -58,7 +58,7 @@ type reqShape struct {
 	method, target string
 	hs             hdrSet
 	body           []byte
-	framing        string // h1: cl | dribble | chunk1 | chunk7 | chunk4096 | chunk-trailers ; h2: d16384 | d1 | dmixed | pad1 | pad255 | emptyend | trailers | nocl
+	framing        string // h1: cl | dribble | chunk1 | chunk7 | chunk4096 | chunk-trailers ; h2: d16384 | d1 | dmixed | pad1 | pad255 | emptyend | trailers | trailers-unannounced | nocl
 }
 
 type respShape struct {
@@ -213,13 +213,13 @@ func (e *env) sendH2(rs reqShape, host string, trailer [][2]string) (uint32, boo
 	// no content-length when frames follow the last body byte (empty END_STREAM DATA, trailers): with a declared length the
 	// exchange can complete before those frames are processed, and the server may then answer them with an error - a race
 	// between the handler goroutine and the serve loop that the harness does not control
-	if rs.framing != "nocl" && rs.framing != "emptyend" && rs.framing != "trailers" && (len(rs.body) > 0 || rs.method == "POST" || rs.method == "PUT") {
+	if rs.framing != "nocl" && rs.framing != "emptyend" && rs.framing != "trailers" && rs.framing != "trailers-unannounced" && (len(rs.body) > 0 || rs.method == "POST" || rs.method == "PUT") {
 		fs = append(fs, h2wire.HF{Name: "content-length", Value: fmt.Sprint(len(rs.body))})
 	}
 	if rs.framing == "trailers" {
 		fs = append(fs, h2wire.HF{Name: "trailer", Value: "X-Req-Trailer"})
 	}
-	noBody := len(rs.body) == 0 && rs.framing != "emptyend" && rs.framing != "trailers"
+	noBody := len(rs.body) == 0 && rs.framing != "emptyend" && rs.framing != "trailers" && rs.framing != "trailers-unannounced"
 	e.h2.Headers(id, fs, noBody)
 	if noBody {
 		return id, true
@@ -252,7 +252,7 @@ func (e *env) sendH2(rs reqShape, host string, trailer [][2]string) (uint32, boo
 	case "emptyend":
 		ok = e.h2.Data(id, rs.body, 0, -1, false)
 		e.h2.C.Write(h2wire.Data(id, nil, true, -1))
-	case "trailers":
+	case "trailers", "trailers-unannounced": // (unannounced: no "trailer" request field names them; the body ends all the same)
 		ok = e.h2.Data(id, rs.body, 0, -1, false)
 		var tf []h2wire.HF
 		for _, l := range trailer {
@@ -469,7 +469,7 @@ func TestCheck(t *testing.T) {
 	methods := []string{"GET", "HEAD", "POST", "PUT", "PATCH", "DELETE", "OPTIONS"}
 	targets := []string{"/", "/a/b", "/a%2Fb", "/x?y=1&y=2&z=", "/?", "/p%20q?a=b%26c"}
 	h1fr := []string{"cl", "dribble", "chunk1", "chunk7", "chunk4096", "chunk-trailers"}
-	h2fr := []string{"d16384", "d1", "dmixed", "d16383", "pad1", "pad255", "emptyend", "trailers", "nocl"}
+	h2fr := []string{"d16384", "d1", "dmixed", "d16383", "pad1", "pad255", "emptyend", "trailers", "trailers-unannounced", "nocl"}
 	hss := hdrSets()
 	type job func()
 	var jobs []job
@@ -546,7 +546,7 @@ func TestCheck(t *testing.T) {
 							}
 							rs := reqShape{method: "POST", target: "/up", hs: hs, body: pat(n, byte(n)), framing: fr}
 							var tr [][2]string
-							if fr == "chunk-trailers" || fr == "trailers" {
+							if fr == "chunk-trailers" || fr == "trailers" || fr == "trailers-unannounced" {
 								tr = [][2]string{{"X-Req-Trailer", "req-trailer-value"}}
 							}
 							desc := fmt.Sprintf("R2 %s headers=%s body=%d framing=%s", proto, hs.name, n, fr)
